@@ -120,7 +120,28 @@ def http_exprs(rng):
     return exprs
 
 
+def rename_case(rng):
+    """a wildcard is renamed by an update / re-creation while another rule set owns an expression below it"""
+    lit = rng.choice(["api", "a", "ab"])
+    n1, n2, n3 = rng.sample(["id", "user", "name", "x", "y"], 3)
+    tail = rng.choice(["details", "x", ":z", "*rest"])
+    def r(i, p):
+        return {"id": i, "bt": rng.choice([True, False, None]), "esh": "", "scheme": "", "methods": [], "hosts": [],
+                "routes": [{"path": p, "pp": []}]}
+    ops = [{"op": "add", "src": "s1", "rules": [r("A", f"/{lit}/:{n1}")]},
+           {"op": "add", "src": "s2", "rules": [r("B", f"/{lit}/:{n1}/{tail}")]}]
+    if rng.random() < 0.5:
+        ops.append({"op": "upd", "src": "s1", "rules": [r("A", f"/{lit}/:{n2}")]})
+    else:
+        ops += [{"op": "del", "src": "s1"}, {"op": "add", "src": "s3", "rules": [r("C", f"/{lit}/:{n3}")]}]
+    for t in (f"/{lit}/7", f"/{lit}/7/details", f"/{lit}/7/x/y"):
+        ops.append({"op": "find", "method": "GET", "host": "a.example.com", "target": t})
+    return {"fam": "repo", "dr": rng.random() < 0.5, "dr_bt": False, "ops": ops}
+
+
 def gen_repo_case(rng, max_ops=12):
+    if rng.random() < 0.04:
+        return rename_case(rng)
     exprs = http_exprs(rng)
     srcs = ["s1", "s2", "s3"]
     ops = []
